@@ -704,10 +704,6 @@ macro_rules! get_char ( ($me:expr, $input:expr) => (
     unwrap_or_return!($me.get_char($input), ProcessResult::Suspend)
 ));
 
-macro_rules! peek ( ($me:expr, $input:expr) => (
-    unwrap_or_return!($me.peek($input), ProcessResult::Suspend)
-));
-
 macro_rules! eat ( ($me:expr, $input:expr, $pat:expr) => (
     unwrap_or_return!($me.eat($input, $pat, u8::eq_ignore_ascii_case), ProcessResult::Suspend)
 ));
@@ -1253,19 +1249,16 @@ impl<Sink: TokenSink> Tokenizer<Sink> {
             },
 
             //§ before-attribute-value-state
-            // Use peek so we can handle the first attr character along with the rest,
-            // hopefully in the same zero-copy buffer.
             states::BeforeAttributeValue => loop {
-                match peek!(self, input) {
-                    '\t' | '\n' | '\r' | '\x0C' | ' ' => go!(self: discard_char input),
-                    '"' => go!(self: discard_char input; to State::AttributeValue(DoubleQuoted)),
-                    '\'' => go!(self: discard_char input; to State::AttributeValue(SingleQuoted)),
+                match get_char!(self, input) {
+                    '\t' | '\n' | '\x0C' | ' ' => (),
+                    '"' => go!(self: to State::AttributeValue(DoubleQuoted)),
+                    '\'' => go!(self: to State::AttributeValue(SingleQuoted)),
                     '>' => {
-                        go!(self: discard_char input);
                         self.bad_char_error();
                         go!(self: emit_tag Data)
                     },
-                    _ => go!(self: to State::AttributeValue(Unquoted)),
+                    _ => go!(self: reconsume AttributeValue(Unquoted)),
                 }
             },
 
